@@ -76,6 +76,8 @@ def run(ctx, rep):
         walk_compares(an, rep, "linkage", "find", w, lambda d, val: False, "")
 
         def early_ok(d, val):
+            if d == nb:
+                return val == "0"                  # `match self.buckets.len() { 0 => return Ok(None), n => .. }`
             atom, pol = cond_holds(d, val)
             if atom[0] == "Eq" and len(atom) == 3:
                 atom = ("Eq",) + tuple(sorted(atom[1:], key=repr))
